@@ -143,6 +143,10 @@ def run_programs(prop, name, progs, profile, ctx_vars=None, ctx_fns=None, pre=()
             c["fns"] = ctx_fns
         steps.append(c)
         e = {"op": "exec", "ctx": i, "text": p["text"], "want": want}
+        if i % 4 == 3:
+            # both public entry points are exercised: every fourth program goes through the one-shot `execute(text, ctx)` (which
+            # consumes a context handle) instead of parse_expression + ExprAST::exec
+            e["via"] = "execute"
         if p.get("fault"):
             e["fault"] = {"k": p["fault"][0], "kind": p["fault"][1], "variant": ERR_VARIANTS[(p["fault"][0] + len(p["text"])) % len(ERR_VARIANTS)]}
         steps.append(e)
